@@ -133,6 +133,14 @@ fn symmetry(t: &mut Tape, ctx: &mut Ctx, al: gen::Alpha) -> CheckResult {
     ensure!(ctx, tab.source_type() == cat(&a, &b) && tab.target_type() == cat(&b, &a), "twist-shape", "twist(A,B) has type {:?} -> {:?}", tab.source_type(), tab.target_type());
     require_iso(ctx, "twist-shape", &tab, &Diagram::twist(&a, &b), "twist(A,B) vs the block transposition")?;
 
+    // the lax representation's symmetry, strictified, is the same block transposition
+    {
+        use crate::labels::obs;
+        use crate::lax_ops::LOH;
+        let lt = <LOH as SymmetricMonoidal>::twist(obs(&a), obs(&b));
+        let lt = wf(ctx, "law-operand-wf", sv::from_strict(&lt.to_strict()), "lax twist(A,B)")?;
+        require_iso(ctx, "twist-shape-lax", &lt, &Diagram::twist(&a, &b), "lax twist(A,B) vs the block transposition")?;
+    }
     // naturality in both arguments: sigma_{A1,B1};(g|f) = (f|g);sigma_{A2,B2} for f:A1->A2, g:B1->B2
     let (a1, a2, b1, b2) = (f.source_type(), f.target_type(), g.source_type(), g.target_type());
     let l = comp(ctx, &tw(&a1, &b1), &(&sg | &sf_), "sigma;(g|f)")?;
